@@ -585,10 +585,13 @@ class NodeDeref:
         if value.isObject():
             member = idx.asString().value
             exists = value.hasItem(member)
+            seen = {id(value)}
             while not exists and value.hasItem("_proto_"):
                 value = value.getItem("_proto_")
-                if not value.isObject():
+                # a chain that leads back into itself has been searched
+                if not value.isObject() or id(value) in seen:
                     break
+                seen.add(id(value))
                 exists = value.hasItem(member)
             if not exists:
                 if self.default_value:
@@ -697,10 +700,13 @@ class NodeDerefInvoke:
         if obj_.isObject():
             obj = obj_
             exists = obj.hasItem(self.member)
+            seen = {id(obj)}
             while not exists and obj.hasItem("_proto_"):
                 obj = obj.getItem("_proto_")
-                if not obj.isObject():
+                # a chain that leads back into itself has been searched
+                if not obj.isObject() or id(obj) in seen:
                     break
+                seen.add(id(obj))
                 exists = obj.hasItem(self.member)
             if not exists:
                 raise CklRuntimeError(
